@@ -39,7 +39,9 @@ def clause_tags(clause):
     if kind == "frame":
         return {"C10"}
     if kind == "views":
-        return {"C04"}
+        # bimap / reverse_bimap / get_prefixes / get_uri_prefixes must agree with the records: after construction (C04),
+        # after every incremental step (C05) and for every input of a derivation (C10)
+        return {"C04", "C05", "C10"}
     return set()
 
 
